@@ -29,7 +29,7 @@ var fuzzSeeds = [][2]string{
 	{"foo\\.tar\\.gz", "foo.tar.gz"}, {"a\\*b", "a*b"}, {"[a\\]*]x", "*x"}, {"[a\\]*]*", "]]"}, {"*[\\]*]", "a*"},
 	{"*ab", "aab"}, {"*a?", "aaab"}, {"*?é", "ééé"}, {"*[^x]é", "aéé"}, {"a*?", "a"}, {"a?", "a"}, {"a[^b]", "a"}, {"*[^b]", ""},
 	// long inputs (the fuzz function skips anything above 4200 bytes)
-	{strings.Repeat("ab/", 1366), strings.Repeat("ab/", 1366)},           // 4098-byte literal pattern equal to the name
+	{strings.Repeat("ab/", 1366), strings.Repeat("ab/", 1366)},               // 4098-byte literal pattern equal to the name
 	{"*" + strings.Repeat("?", 4096) + "x", strings.Repeat("é", 4096) + "x"}, // 4098-byte pattern, 8193-byte name
 	{"**a**b**", "xxaxxbxx"}, {"*a*b*c*", "abcabc"}, {"src/*.go", "src/x/y.go"}, {"", ""}, {"*", ""},
 }
